@@ -12,6 +12,8 @@ import YashModel.Syntax.Closed
 import YashModel.Syntax.Tables
 import YashModel.Syntax.LineLemmas
 import YashModel.Syntax.ArrayLemmas
+import YashModel.Syntax.DeclLemmas
+import YashModel.Syntax.EofLemmas
 namespace YashModel.Syntax
 
 /-- ★ Every escape unit the parser can produce is printed as text that the escape lexer reads back as the
@@ -785,5 +787,117 @@ example (rest : List Char) :
   refine ⟨_, rfl, job_name_roundtrip _ rest ?_⟩
   have h := nested_line_ok rest
   simpa only [LineOk, nested, it1, ItemsOk, Bool.false_eq_true, if_false, List.nil_append] using h
+
+/-! ## Wave 3 (second pass): declaration utilities and the placement of redirections
+
+`Display for SimpleCommand` moves every redirection behind the words (or in front of them, keyword-first).
+Whether a `name=value` operand is parsed in the single-expansion mode (tilde expansions after `=` and `:`)
+depends on the `is_declaration_utility` state of `Parser::simple_command`; `declLoop` transcribes that state
+machine over the tokens of the loop, the driver checks on every tree that the modes the real parser assigned
+are `wordModes posixGlossary none words`, and the glossary is the extracted `PosixGlossary`. -/
+
+/-- ★ Redirections and assignments never change the declaration-utility decision: the expansion modes of the
+    words are those the words alone determine, for every glossary, every state and every placement. -/
+theorem decl_modes_ignore_redirections (g : Glossary) (st : Option Bool) (items : List SItem) :
+    declLoop g st items = wordModes g st (items.filterMap SItem.word?) :=
+  declLoop_eq_wordModes g items st
+
+/-- ★ Hence the printed form — assignments, words, redirections, or redirections first — re-parses with the
+    same mode for every word as the source did, wherever the source had its redirections. -/
+theorem printed_order_keeps_decl_modes (g : Glossary) (items : List SItem) (k m : Nat) :
+    declLoop g none (List.replicate k .assign ++ (items.filterMap SItem.word?).map .word ++ List.replicate m .redir) =
+      declLoop g none items ∧
+    declLoop g none (List.replicate m .redir ++ (items.filterMap SItem.word?).map .word) = declLoop g none items := by
+  obtain ⟨h1, h2⟩ := filterMap_printed k m (items.filterMap SItem.word?)
+  rw [declLoop_eq_wordModes, declLoop_eq_wordModes, declLoop_eq_wordModes, h1, h2]
+  exact ⟨rfl, rfl⟩
+
+/-- the glossary of `List::from_str` as the sources define it: `export`, `readonly` are declaration
+    utilities, `command` defers to the next word, every other name is none -/
+theorem posixGlossary_is_table :
+    posixGlossary "export".toList = some true ∧ posixGlossary "readonly".toList = some true ∧
+    posixGlossary "command".toList = none ∧
+    ∀ s : List Char, s ≠ "export".toList → s ≠ "readonly".toList → s ≠ "command".toList →
+      posixGlossary s = some false := posixGlossary_spec
+
+/-- `command >log export PATH=~/bin` and `command export PATH=~/bin >log`: the operand is `Single` in both -/
+example : declLoop posixGlossary none [.word (lw "command"), .redir, .word (lw "export"), .word (lw "PATH=x")] =
+    [false, false, true] ∧
+    declLoop posixGlossary none [.word (lw "command"), .word (lw "export"), .word (lw "PATH=x"), .redir] =
+    [false, false, true] ∧
+    declLoop posixGlossary none [.word (lw "echo"), .redir, .word (lw "PATH=x")] = [false, false] := by
+  decide +kernel
+
+/-! ## Wave 3 (second pass): totality — the fuel of the line loop
+
+The model parser is total by construction (structural recursion on fuel).  What has to be shown is that the
+fuel it is given — linear in the input length — never runs out.  Full statement (open):
+`∀ cs k, 1 ≤ k → parseScriptWith k cs = parseScript cs`.  Proved: the line loop, given that every accepted command
+line consumes a character (`LineProgress`; missing: that property for `parseCommand`, i.e. "the rest is a proper
+suffix" through all parser layers).  The driver checks the full statement for `k = 2` on every `L` case. -/
+
+/-- with more than `|cs|` fuel the line loop never stops for lack of fuel: any two such budgets agree -/
+theorem parseLines_fuel_stable_partial (pc : CmdParser) (hp : LineProgress pc) (cs : List Char) (f1 f2 : Nat)
+    (h1 : cs.length + 1 ≤ f1) (h2 : cs.length + 1 ≤ f2) : parseLines pc f1 cs = parseLines pc f2 cs :=
+  parseLines_fuel_stable pc hp cs.length cs f1 f2 (Nat.le_refl _) h1 h2
+
+/-- non-vacuity of the full statement on a script: twice the budgets, same answer -/
+example : (parseScriptWith 2 "f() { a | b; }\n(c)\n".toList).map (·.map (printList false)) =
+    (parseScript "f() { a | b; }\n(c)\n".toList).map (·.map (printList false)) := by decide +kernel
+
+/-! ## Wave 3 (second pass): end of input directly after the last token — the word, token and simple-command layers
+
+`List::from_str(printed)` ends at the end of input without a newline.  The word-level statements needed a
+following character; these are their end-of-input twins (only the outermost list of word units can meet the end
+of input: inner lists end at `}` or `"`).  Still open: the structural layers (`TailOk` / `NextOk` with an empty
+tail through pipelines, and-or lists, lists and compound commands). -/
+
+/-- ★ a printed word of the fragment followed by the end of input is read back as that word, for every
+    delimiter predicate -/
+theorem word_self_delimiting_at_end_of_input (d : Delim) (w : Word) (h : WordUnits.Ok .word d w []) :
+    lexWord d (printWord w) = some (w, []) := word_eof d w h
+
+/-- a printed token word at the end of input is read by the token step as that word, with its reserved-word
+    classification, after an optional blank -/
+theorem token_roundtrip_at_end_of_input (w : Word) (hw : TokWordOk w []) (sp : Bool) :
+    lexToken ((if sp then [' '] else []) ++ printWord w) = some (⟨w, .word (isKeywordWord w)⟩, []) :=
+  lexToken_word_eof w hw sp
+
+/-- ★ a simple command of the fragment (scalar and array assignments, words, redirections, both print orders)
+    printed and followed directly by the end of input is read back by `Parser::simple_command` -/
+theorem simple_command_roundtrip_at_end_of_input (c : SimpleCommand) (h : SimpleOk c []) (fuel : Nat)
+    (hf : (printSimple c).length + 2 ≤ fuel) : parseSimple fuel (printSimple c) = some (some c, []) := by
+  obtain ⟨ps, hps, hprint, hfold, hok⟩ := h
+  have hlen := pieces_length_le [] _ _ hok
+  rw [hprint] at hf ⊢
+  have hl := loop_pieces_eof ps ⟨[], [], []⟩ fuel false (by omega) (fun _ => rfl) hok
+  simp only [Bool.false_eq_true, if_false, List.nil_append] at hl
+  unfold parseSimple
+  rw [hl, hfold]
+  have hne : (Builder.mk c.assigns c.words c.redirs).isEmpty = false := by
+    cases ps with
+    | nil => exact absurd rfl hps
+    | cons p qs =>
+      have hmono : ∀ (l : List Piece) (b : Builder), b.isEmpty = false →
+          (l.foldl Builder.push b).isEmpty = false := by
+        intro l
+        induction l with
+        | nil => intro b hb; exact hb
+        | cons q l ih =>
+          intro b hb
+          apply ih
+          cases q <;> simp [Builder.push, Builder.isEmpty] at hb ⊢ <;> intro a b' <;> simp_all
+      have h1 : (Builder.push ⟨[], [], []⟩ p).isEmpty = false := by
+        cases p <;> simp [Builder.push, Builder.isEmpty]
+      have := hmono qs _ h1
+      rw [List.foldl_cons] at hfold
+      rw [hfold] at this
+      exact this
+  simp [hne]
+
+/-- non-vacuity: `a=(x y) b=1 c >f` and then the end of input -/
+example : parseSimple 40 (printSimple arrCmd) = some (some arrCmd, []) :=
+  simple_command_roundtrip_at_end_of_input arrCmd
+    (simpleOk_assigns _ _ _ _ (by simp [arrCmd, mkSimpleV]) (arrCmd_ok _)) 40 (by decide +kernel)
 
 end YashModel.Syntax
